@@ -251,6 +251,26 @@ def run_op(w: W.World, op):
             seqs["unseen"] = sorted(set(seqs.get("unseen", [])) | set(keys))
             mh.set_sequences(seqs)
         w.bump_mtime(m)
+    elif k == "sdeliver":
+        # an MH tool delivers in the same second as the server's last look at the folder: the modification times the
+        # server compares are unchanged, its next (optional) resync will not see the messages
+        _, m, n, unseen, cid0, date = op
+        d = str(w.root / m)
+        seqf = os.path.join(d, ".mh_sequences")
+        before = (os.stat(d).st_mtime_ns, os.stat(seqf).st_mtime_ns if os.path.exists(seqf) else None)
+        mh = w.folder(m)
+        keys = []
+        for i in range(n):
+            key = int(mh.add(W.make_msg(cid0 + i)))
+            os.utime(os.path.join(d, str(key)), (date, date))
+            keys.append(key)
+        if unseen:
+            seqs = mh.get_sequences()
+            seqs["unseen"] = sorted(set(seqs.get("unseen", [])) | set(keys))
+            mh.set_sequences(seqs)
+        if before[1] is not None and os.path.exists(seqf):
+            os.utime(seqf, ns=(before[1], before[1]))
+        os.utime(d, ns=(before[0], before[0]))
     elif k == "poll":
         w.settle(25)
     elif k == "restart":
@@ -496,8 +516,9 @@ class History:
             return ("append", s, m, fl, BASE_DATE + 3600 * rng.randint(0, 200), cid)
         if k == "store":
             uidc = rng.random() < 0.4
-            return ("store", s, uidc, self.ruidset(s) if uidc else self.rset(n), rng.choice("+-="), rng.random() < 0.3,
-                    self.rflags())
+            # one store in twelve has an empty flag list: "FLAGS ()" clears everything, "+FLAGS ()" changes nothing
+            fl = [] if rng.random() < 0.08 else self.rflags()
+            return ("store", s, uidc, self.ruidset(s) if uidc else self.rset(n), rng.choice("+-="), rng.random() < 0.3, fl)
         if k == "fetch":
             uidc = rng.random() < 0.4
             return ("fetch", s, uidc, self.ruidset(s) if uidc else self.rset(n), rng.choice(["flags", "flags", "peek", "body"]))
@@ -514,6 +535,11 @@ class History:
             nn = rng.choice([1, 1, 2, 3])
             self.next_cid += nn
             return ("deliver", rng.choice(self.boxes), nn, rng.random() < 0.7, cid, BASE_DATE + 3600 * rng.randint(0, 200))
+        if k == "sdeliver":
+            cid = self.next_cid
+            nn = rng.choice([1, 1, 2])
+            self.next_cid += nn
+            return ("sdeliver", rng.choice(self.boxes), nn, rng.random() < 0.7, cid, BASE_DATE + 3600 * rng.randint(0, 200))
         if k == "poll":
             return ("poll",)
         if k == "restart":
